@@ -170,7 +170,7 @@ def _field(**kw):
              apol='access policy pol allow all using (true);',
              bl='multi a: A { w: int64; }',
              fn='function f(x: int64) -> int64 using (x + 1);',
-             gl='global g -> str;', al='alias AA := A { u := .n };')
+             gl='global g -> str;', al='alias AA := A { u := .s };')
     d.update(kw)
     return D(_FB.format(**d))
 
@@ -194,7 +194,7 @@ FIELDS = {
         apol='access policy pol allow all using (true);',
         bl='multi a: A { w: int64; }',
         fn='function f(x: int64) -> int64 using (x + 1);',
-        gl='global g -> str;', al='alias AA := A { u := .n };').replace(
+        gl='global g -> str;', al='alias AA := A { u := .s };').replace(
             'constraint min_value(0)  }',
             'constraint min_value(0); annotation title := "s" }')),
     'FLD_idx_except': _field(aidx='index on (.n) except (.n < 0);'),
@@ -238,16 +238,28 @@ FIELDS = {
     'FLD_gl_required': _field(
         gl='required global g -> str { default := "d" };'),
     'FLD_gl_anno': _field(gl='global g -> str { annotation title := "g" };'),
-    'FLD_al_expr': _field(al='alias AA := A { u := .n + 1 };'),
+    'FLD_al_expr': _field(al='alias AA := A { u := .s + 1 };'),
     'FLD_al_anno': _field(
-        al='alias AA { using (A { u := .n }); annotation title := "a" };'),
+        al='alias AA { using (A { u := .s }); annotation title := "a" };'),
     'FLD_type_anno': _field(an='annotation title := "A";'),
     'FLD_as_required': _field(as_='{ constraint max_value(5) }'),
 }
 FAMILY.update(FIELDS)
+# a computed alias element that is a bare pointer of the type copies that
+# pointer's default (known finding: it is not refreshed when the default is
+# reset)
+ALD = {
+    'ALD_1': D('type A { n: int64 { default := 1 } } '
+               'alias AA := A { u := .n };'),
+    'ALD_0': D('type A { n: int64; } alias AA := A { u := .n };'),
+    'ALD_2': D('type A { n: int64 { default := 2 } } '
+               'alias AA := A { u := .n };'),
+}
+FAMILY.update(ALD)
 # groups of members that are (in addition) migrated among themselves only:
 # (members, all_pairs) - all ordered pairs, or only first <-> each other
-FOCUS_GROUPS = [(list(DEEP), True), (list(FIELDS), False)]
+FOCUS_GROUPS = [(list(DEEP), True), (list(FIELDS), False),
+                (list(ALD), True)]
 
 # members whose second module shadows std names used (unqualified in the
 # source) by the first one: the described text must stay self-contained
